@@ -223,7 +223,52 @@ func (w *c48World) apply(st *c48Step, last bool) {
 	if last {
 		only = nil
 	}
+	var outerK []string // "nested": what the outer enumerations yielded while inner ones ran on the same set
+	var outerAK []string
+	var outerAV []int
 	switch st.Op {
+	case "abort", "abortq":
+		// the consumer leaves the range loop after V items (V = 0: before the first one); the model: no change
+		n := 0
+		if st.B == "all" {
+			for range w.sets[st.S].All() {
+				if n >= st.V {
+					break
+				}
+				n++
+			}
+		} else {
+			for range w.sets[st.S].Keys() {
+				if n >= st.V {
+					break
+				}
+				n++
+			}
+		}
+		if st.Op == "abortq" && !last {
+			only = map[string]bool{} // not observed: the next operation meets the set right after the aborted enumeration
+		}
+	case "nested":
+		// a complete enumeration whose loop body enumerates the same set again (completely, or aborted after V items)
+		inner := func() {
+			n := 0
+			for range w.sets[st.S].Keys() {
+				if st.V > 0 && n >= st.V {
+					break
+				}
+				n++
+			}
+		}
+		outerK, outerAK, outerAV = []string{}, []string{}, []int{}
+		for bh := range w.sets[st.S].Keys() {
+			outerK = append(outerK, w.token(bh))
+			inner()
+		}
+		for bh, v := range w.sets[st.S].All() {
+			outerAK = append(outerAK, w.token(bh))
+			outerAV = append(outerAV, int(v))
+			inner()
+		}
 	case "new":
 		w.bind(st.S, NewAssociatedSet[uint8](w.mi))
 	case "insert":
@@ -269,6 +314,14 @@ func (w *c48World) apply(st *c48Step, last bool) {
 	}
 	st.Ovfl = map[string]int{}
 	st.Obs = w.observe(only)
+	if st.Op == "nested" {
+		// judged like any other report of the set: the outer enumerations replace Keys / All of the observation
+		for i := range st.Obs {
+			if st.Obs[i].Name == st.S {
+				st.Obs[i].Keys, st.Obs[i].AllK, st.Obs[i].AllV = outerK, outerAK, outerAV
+			}
+		}
+	}
 }
 
 func c48Run(kind string, uni []string, steps []c48Step) (rec c48Rec) {
@@ -341,6 +394,17 @@ func c48RandomScenario(r *rand.Rand) []c48Step {
 		b := c48Uni[r.Intn(len(c48Uni))]
 		x := r.Intn(100)
 		switch {
+		case x < 8:
+			op, how := "abort", ""
+			if r.Intn(2) == 0 {
+				op = "abortq"
+			}
+			if r.Intn(2) == 0 {
+				how = "all"
+			}
+			steps = append(steps, c48Step{Op: op, S: s, B: how, V: r.Intn(4)})
+		case x < 11:
+			steps = append(steps, c48Step{Op: "nested", S: s, V: r.Intn(3)})
 		case x < 34:
 			steps = append(steps, c48Step{Op: "insert", S: s, B: b})
 		case x < 52:
@@ -416,6 +480,9 @@ func c48Directed() (kinds []string, scen [][]c48Step) {
 		"types":             {{Op: "new", S: "A"}, {Op: "insert", S: "A", B: "t1"}, {Op: "delete", S: "A", B: "d1"}, {Op: "set", S: "A", B: "d1", V: 1}, {Op: "delete", S: "A", B: "t1"}},
 		"overflow":          {{Op: "new", S: "A"}, {Op: "set", S: "A", B: "x1", V: 2}, {Op: "insert", S: "A", B: "d1"}, {Op: "delete", S: "A", B: "x1"}},
 		"intersect-sub":     {{Op: "new", S: "A"}, {Op: "new", S: "B"}, {Op: "set", S: "A", B: "d1", V: 2}, {Op: "set", S: "A", B: "d2", V: 3}, {Op: "set", S: "A", B: "x1", V: 1}, {Op: "insert", S: "B", B: "d1"}, {Op: "insert", S: "B", B: "x1"}, {Op: "insert", S: "B", B: "d3"}, {Op: "intersect", S: "A", O: "B", Res: "C"}, {Op: "sub", S: "A", O: "B", Res: "D"}},
+		"abort-then-observe": {{Op: "new", S: "A"}, {Op: "insert", S: "A", B: "d1"}, {Op: "set", S: "A", B: "d2", V: 2}, {Op: "insert", S: "A", B: "x1"}, {Op: "abort", S: "A", V: 1}, {Op: "abort", S: "A", B: "all", V: 2}},
+		"abort-then-sub":     {{Op: "new", S: "A"}, {Op: "new", S: "B"}, {Op: "insert", S: "A", B: "d1"}, {Op: "set", S: "A", B: "d2", V: 2}, {Op: "insert", S: "A", B: "t1"}, {Op: "abortq", S: "A", V: 2}, {Op: "sub", S: "A", O: "B", Res: "C"}, {Op: "abortq", S: "A", B: "all", V: 1}, {Op: "intersect", S: "A", O: "A", Res: "D"}},
+		"nested-enumeration": {{Op: "new", S: "A"}, {Op: "insert", S: "A", B: "d1"}, {Op: "set", S: "A", B: "d2", V: 2}, {Op: "insert", S: "A", B: "x1"}, {Op: "nested", S: "A"}, {Op: "nested", S: "A", V: 1}},
 		"grow-after-insert": {{Op: "new", S: "A"}, {Op: "insert", S: "A", B: "d1"}, {Op: "set", S: "A", B: "x1", V: 2}, {Op: "storepack", Idx: []c48Ent{e("x1", "p3", 0), e("d1", "p3", 100), e("d3", "p3", 200)}}, {Op: "flush"}, {Op: "new", S: "B"}, {Op: "insert", S: "B", B: "x1"}, {Op: "insert", S: "B", B: "d3"}, {Op: "intersect", S: "A", O: "B", Res: "C"}, {Op: "delete", S: "A", B: "x1"}},
 	}
 	var sk, qk []string
@@ -503,7 +570,7 @@ func c48Sig(steps []c48Step) string {
 }
 
 func TestVerif_C48(t *testing.T) {
-	res := kit.NewResult("one case = one scenario: a master index built from index files / non-final packs (same blob in several packs, files, final+non-final, exact duplicate entries, blobs missing from the index, equal ID with two blob types) followed by an operation sequence (new/insert/set/delete/intersect/sub interleaved with index growth) on real AssociatedSets, every live set observed (Len, Keys, All, Has, Get) after every step; distinct by (index entries, operation sequence); non-trivial when some set was non-empty at some step")
+	res := kit.NewResult("one case = one scenario: a master index built from index files / non-final packs (same blob in several packs, files, final+non-final, exact duplicate entries, blobs missing from the index, equal ID with two blob types) followed by an operation sequence (new/insert/set/delete/intersect/sub, enumerations the consumer aborts after k items, nested enumerations of one set, interleaved with index growth) on real AssociatedSets, every live set observed (Len, Keys, All, Has, Get) after every step; distinct by (index entries, operation sequence); non-trivial when some set was non-empty at some step")
 	recs := kit.NewNDJSON("recs.ndjson")
 	defer recs.Close()
 	full := kit.NewNDJSON("full.ndjson")
